@@ -430,7 +430,7 @@ func hasCycle(n int, edges map[[2]int]bool) bool {
 func init() {
 	register(&Prop{
 		ID: "C19", Level: "exploration", Variant: "I", Design: "DESIGN.md §5 C19",
-		Rule:      "Each run draws 1..12 sources with 1..4 binaries each (Binary field single-line or folded), build-dependencies over Build-Depends, Build-Depends-Arch and Build-Depends-Indep with alternatives, [arch]/[!arch] restrictions, substvars, external packages, self-dependencies and cycles, renders them as .dsc files onto the simulated file system in a tape-chosen arrival order, parses them back with ParseDscFile and calls OrderDSCForBuild three times for a concrete build architecture under tape-chosen map orders. An independent graph model (first applicable non-substvar alternative per relation; binary->source map) decides: error iff the graph has a cycle, otherwise a permutation with every edge forward, identical on every repetition. Binaries may be named like their own or like another source; source names nobody builds appear as external dependencies; the same parsed objects are then ordered for a second architecture, for the first again, and (a third of the runs) by 2..3 concurrent callers.",
+		Rule:      "Each run draws 1..12 sources with 1..4 binaries each (Binary field single-line or folded), build-dependencies over Build-Depends, Build-Depends-Arch and Build-Depends-Indep with alternatives, [arch]/[!arch] restrictions, substvars, external packages, self-dependencies and cycles, renders them as .dsc files (a quarter of them ending in their Build-Depends* fields without a final newline) onto the simulated file system in a tape-chosen arrival order, parses them back with ParseDscFile and calls OrderDSCForBuild three times for a concrete build architecture under tape-chosen map orders. An independent graph model (first applicable non-substvar alternative per relation; binary->source map) decides: error iff the graph has a cycle, otherwise a permutation with every edge forward, identical on every repetition. Binaries may be named like their own or like another source; source names nobody builds appear as external dependencies; the same parsed objects are then ordered for a second architecture, for the first again, and (a third of the runs) by 2..3 concurrent callers.",
 		Run:       runC19,
 		QuickRuns: 250000, QuickSecs: 40, ThoroughRuns: 2_000_000, ThoroughSecs: 900,
 		Components: map[string]interface{}{
